@@ -266,3 +266,24 @@ package raft
 //@   ensures [snapshot-threshold] jcfg.SnapshotThreshold != 0 ==> cfg.RaftConfig.SnapshotThreshold == jcfg.SnapshotThreshold
 //@   ensures [leader-lease-timeout] parseDur(jcfg.LeaderLeaseTimeout) != 0 ==> cfg.RaftConfig.LeaderLeaseTimeout == parseDur(jcfg.LeaderLeaseTimeout)
 //@   modifies *
+
+// ---- "a newly added peer holds the same pinset as the others before it reports itself ready" ----
+// syncOK: WaitForSync calls that returned nil (a leader is known, this peer is a voter, its log is applied up to
+// the leader's last index); assumed (not verified): WaitForSync itself (hashicorp/raft)
+//@ ghost var syncOK int
+//@ func (cc *Consensus) WaitForSync
+//@   opts trusted
+//@   counts syncOK when err == nil
+//@   modifies nothing
+
+// assumed (not verified): bootstrapping the raft instance (hashicorp/raft) does not synchronise anything by itself
+//@ func (rw *raftWrapper) Bootstrap
+//@   opts trusted
+//@   modifies nothing
+
+// the ready signal is sent only after the state has been synchronised
+//@ func (cc *Consensus) finishBootstrap
+//@   property C17
+//@   requires cc != nil
+//@   at_send cc.readyCh assert [ready-only-after-sync] syncOK == old(syncOK) + 1
+//@   modifies *
